@@ -55,6 +55,8 @@ func c15Ops(base []histOp) []histOp {
 		histOp{Kind: "string", Name: "plain", Data: d},
 		histOp{Kind: "response", Name: "failing2", Data: d},
 		histOp{Kind: "evalstring", Src: "{{ {z: 1, a: [1, 2].reverse()} }}@dump(items)", Data: d},
+		histOp{Kind: "string", Name: "missing/one", Data: d}, histOp{Kind: "response", Name: "missing/two", Data: d}, histOp{Kind: "string", Name: "missing/three", Data: nil},
+		histOp{Kind: "response", Name: "missing/four", Data: nil}, histOp{Kind: "string", Name: "layouts/main", Data: d},
 	)
 }
 
@@ -64,14 +66,19 @@ func c15Run(p concPlan) string {
 	cs.Ops = c15Ops(cs.Ops)
 	old := runtime.GOMAXPROCS(p.Procs)
 	defer runtime.GOMAXPROCS(old)
-	h, herr := c15Setup(cs)
+	// sequential baseline on a load of its own, so that the concurrent phase
+	// starts from a freshly loaded Template (nothing warmed up by the baseline)
+	h0, herr := c15Setup(cs)
 	if herr != "" {
 		return herr
 	}
-	// sequential baseline
 	base := make([]string, len(cs.Ops))
 	for i, op := range cs.Ops {
-		base[i] = h.exec(op)
+		base[i] = h0.exec(op)
+	}
+	h, herr := c15Setup(cs)
+	if herr != "" {
+		return herr
 	}
 	reps := p.Repeat
 	if reps < 1 {
@@ -126,7 +133,7 @@ func c15NonTrivial(p concPlan, nOps int) bool {
 	for g, list := range p.Goroutines {
 		for _, oi := range list {
 			op := ops[oi%len(ops)]
-			f := strings.Contains(op.Name, "failing") || op.Name == "inloop" || op.Name == "nosuch"
+			f := strings.Contains(op.Name, "failing") || op.Name == "inloop" || op.Name == "nosuch" || strings.HasPrefix(op.Name, "missing/")
 			if f && (op.Kind == "response" || op.Kind == "string") && failing < 0 {
 				failing = g
 			}
